@@ -213,7 +213,7 @@ theorem C15_heisenberg_accepts_iff {α : Type} (f : FieldIn) (J h : List (PyArg 
         obtain ⟨rfl, rfl, rfl⟩ := e2
         rw [e3]
     · rename_i hall
-      simp only [List.all_eq_true, Bool.not_eq_true] at hall
+      simp only [List.all_eq_true] at hall
       simp only [reduceCtorEq, false_iff, not_exists, not_and]
       intro a1 a2 a3 b1 b2 b3 e1 e2 hk
       simp only [List.cons.injEq, and_true] at e1 e2
@@ -252,5 +252,384 @@ theorem C15_layered_block (base : Lat) (i j : ℕ) (hi : i < base.nsites) (hj : 
   have h1 : i < 2 * base.nsites := by omega
   have h2 : j < 2 * base.nsites := by omega
   simp [e1, e2, Nat.mod_eq_of_lt hi, Nat.mod_eq_of_lt hj, h1, h2]
+
+/-! ### Fermi-Hubbard: constructor, coefficient tensors -/
+
+/-- accepted ⇔ fermionic field, `t` and `u` are `float` instances (ints are refused), and – when `spin` – the
+lattice is a `LayeredLattice` with exactly two layers -/
+theorem C15_hubbard_accepts_iff {α : Type} (f : FieldIn) (t u : PyArg α) (spin : Bool) (H : Hubbard α) :
+    mkHubbard f t u spin = .ok H ↔
+      f.ptype = .fermion ∧ t.kind.isFloat = true ∧ u.kind.isFloat = true ∧
+      (spin = true → f.lat.layers = some 2) ∧ H = ⟨f.lat, t.val, u.val, spin⟩ := by
+  unfold mkHubbard
+  by_cases h1 : f.ptype = .fermion <;> by_cases h2 : t.kind.isFloat = true <;> by_cases h3 : u.kind.isFloat = true <;>
+    cases spin <;> simp [h1, h2, h3, eq_comm]
+  cases hl : f.lat.layers with
+  | none => simp
+  | some nl =>
+    by_cases h4 : nl = 2
+    · simp [h4]
+    · simp [h4]
+
+/-- spinless: `-t` on every neighbour pair (both orientations), `u` on `(i, i, j, j)` for every edge `i < j` once -/
+theorem C15_hubbard_def_spinless {K : Type} [Ring K] (L : ℕ) (adj : ℕ → ℕ → ℤ) (t u : K)
+    (h01 : ∀ i j, adj i j = 0 ∨ adj i j = 1) :
+    (∀ i j, hubbardKin L adj t false i j = if adj i j ≠ 0 then -t else 0) ∧
+    (∀ a b c d, hubbardInt L adj u false a b c d = if (a, c) ∈ edgeSet L adj ∧ b = a ∧ d = c then u else 0) := by
+  constructor
+  · intro i j
+    simp only [hubbardKin, Bool.false_eq_true, if_false]
+    rcases h01 i j with h | h <;> simp [h]
+  · intro a b c d
+    simp only [hubbardInt, Bool.false_eq_true, if_false, mem_edgeSet]
+    congr 1
+    apply propext
+    constructor
+    · rintro ⟨h1, h2, h3, h4, h5⟩; exact ⟨⟨h3, h4, h5⟩, h1, h2⟩
+    · rintro ⟨⟨h3, h4, h5⟩, h1, h2⟩; exact ⟨h1, h2, h3, h4, h5⟩
+
+/-- spinful on `L = h + h` sites (layer `s` = sites `s·h … s·h + h − 1`): hopping `-t` inside each spin layer on the
+neighbour pairs of the base block `adj[:h, :h]`, nothing between the layers; `u` on `(i, i, i + h, i + h)` -/
+theorem C15_hubbard_def_spinful {K : Type} [Ring K] (h : ℕ) (adj : ℕ → ℕ → ℤ) (t u : K)
+    (h01 : ∀ i j, i < h → j < h → adj i j = 0 ∨ adj i j = 1) :
+    (∀ s s' i j, i < h → j < h →
+      hubbardKin (h + h) adj t true (s * h + i) (s' * h + j) = if s = s' ∧ adj i j ≠ 0 then -t else 0) ∧
+    (∀ a b c d, hubbardInt (h + h) adj u true a b c d = if a < h ∧ b = a ∧ c = a + h ∧ d = a + h then u else 0) := by
+  have hh : (h + h) / 2 = h := by omega
+  constructor
+  · intro s s' i j hi hj
+    simp only [hubbardKin, if_true, hh, kronI2_block h adj s s' i j hi hj]
+    by_cases e : s = s'
+    · rcases h01 i j hi hj with h | h <;> simp [e, h]
+    · simp [e]
+  · intro a b c d
+    simp only [hubbardInt, if_true, hh]
+
+/-- the two terms of `as_field_operator` are number-balanced: as many creators as annihilators
+(the same holds for the molecular Hamiltonian) -/
+theorem C15_hubbard_number_balanced :
+    charge hubbardPatternT = 0 ∧ charge hubbardPatternV = 0 ∧
+    hubbardPatternT = [.create, .annihil] ∧ hubbardPatternV = [.create, .annihil, .create, .annihil] ∧
+    charge molPatternC = 0 ∧ charge molPatternT = 0 ∧ charge molPatternV = 0 := by decide
+
+/-! ### Fermi-Hubbard at the operator level, in any representation of the CAR
+
+`C : CAR R L` is a family `a 0 … a (L-1)` in a `*`-ring `R` with `a_i a_j + a_j a_i = 0` and
+`a_i a_j† + a_j† a_i = δ_ij`; `C.ad i = a_i†`, `C.n i = a_i† a_i`, `C.N = Σ n_i`. The Jordan-Wigner matrices built by
+`FieldOperator.as_matrix` are such a family (C10). `C.termDen pat coef` is the denotation of a `FieldOperatorTerm`:
+`Σ coef[i₁…i_k] • op₁(i₁) ⋯ op_k(i_k)`. -/
+
+section car
+variable {R : Type} [Ring R] [StarRing R] {K : Type} [CommRing K] [Algebra K R]
+
+theorem C15_termDen_def {L : ℕ} (C : CAR R L) (c : K) (o1 o2 o3 o4 : Op) (t : ℕ → ℕ → K) (v : ℕ → ℕ → ℕ → ℕ → K) :
+    C.termDen [] (coef0 c) = c • (1 : R) ∧
+    C.termDen [o1, o2] (coef2 t) = ∑ i ∈ Finset.range L, ∑ j ∈ Finset.range L, t i j • (C.op o1 i * C.op o2 j) ∧
+    C.termDen [o1, o2, o3, o4] (coef4 v) =
+      ∑ i ∈ Finset.range L, ∑ j ∈ Finset.range L, ∑ k ∈ Finset.range L, ∑ l ∈ Finset.range L,
+        v i j k l • (C.op o1 i * C.op o2 j * C.op o3 k * C.op o4 l) :=
+  ⟨C.termDen_nil c, C.termDen_two o1 o2 t, C.termDen_four o1 o2 o3 o4 v⟩
+
+/-- spinless Hubbard: `H = -t Σ_{edges once} (a†_i a_j + a†_j a_i) + u Σ_{edges once} n_i n_j` -/
+theorem C15_hubbard_def_op_spinless (lat : LatIn) (t u : K) (C : CAR R lat.nsites)
+    (h01 : ∀ i j, i < lat.nsites → j < lat.nsites → lat.adj i j = 0 ∨ lat.adj i j = 1)
+    (hsym : ∀ i j, i < lat.nsites → j < lat.nsites → lat.adj i j = lat.adj j i)
+    (hdiag : ∀ i, i < lat.nsites → lat.adj i i = 0) :
+    Hubbard.den ⟨lat, t, u, false⟩ C =
+      (-t) • ∑ p ∈ edgeSet lat.nsites lat.adj, (C.ad p.1 * C.a p.2 + C.ad p.2 * C.a p.1) +
+      u • ∑ p ∈ edgeSet lat.nsites lat.adj, C.n p.1 * C.n p.2 := by
+  unfold Hubbard.den Hubbard.kin Hubbard.int
+  rw [C.hubbard_kin_spinless lat.adj t h01 hsym hdiag, C.hubbard_int_spinless lat.adj u]
+
+/-- spinful Hubbard on `h + h` sites with base block `adj[:h, :h]`:
+`H = -t Σ_{σ} Σ_{edges of the base once} (a†_{σ,i} a_{σ,j} + h.c.) + u Σ_i n_{↑,i} n_{↓,i}` -/
+theorem C15_hubbard_def_op_spinful (h : ℕ) (adj : ℕ → ℕ → ℤ) (layers : Option ℕ) (t u : K) (C : CAR R (h + h))
+    (h01 : ∀ i j, i < h → j < h → adj i j = 0 ∨ adj i j = 1)
+    (hsym : ∀ i j, i < h → j < h → adj i j = adj j i) (hdiag : ∀ i, i < h → adj i i = 0) :
+    Hubbard.den ⟨⟨h + h, adj, layers⟩, t, u, true⟩ C =
+      (-t) • ∑ s ∈ Finset.range 2, ∑ p ∈ edgeSet h adj,
+        (C.ad (s * h + p.1) * C.a (s * h + p.2) + C.ad (s * h + p.2) * C.a (s * h + p.1)) +
+      u • ∑ i ∈ Finset.range h, C.n i * C.n (i + h) := by
+  unfold Hubbard.den Hubbard.kin Hubbard.int
+  exact congrArg₂ (· + ·) (C.hubbard_kin_spinful adj t h01 hsym hdiag) (C.hubbard_int_spinful adj u)
+
+/-- Hubbard conserves the particle number: `[N, H] = 0` in every representation of the CAR, for every lattice input
+(each term of `as_field_operator` is number-balanced and `[N, a†_i] = a†_i`, `[N, a_i] = -a_i` follow from the CAR) -/
+theorem C15_hubbard_conserves_N (H : Hubbard K) (C : CAR R H.lat.nsites) : C.N * H.den C = H.den C * C.N := by
+  unfold Hubbard.den
+  rw [mul_add, add_mul, C.N_commutes_balanced _ C15_hubbard_number_balanced.1,
+    C.N_commutes_balanced _ C15_hubbard_number_balanced.2.1]
+
+/-- the general statement behind it: `[N, term] = (#creators − #annihilators) • term` for every operator pattern -/
+theorem C15_number_commutator {L : ℕ} (C : CAR R L) (pat : List Op) (coef : List ℕ → K) :
+    C.N * C.termDen pat coef - C.termDen pat coef * C.N = charge pat • C.termDen pat coef :=
+  C.N_comm_termDen pat coef
+
+variable [StarRing K] [StarModule K R]
+
+/-- Hubbard is Hermitian (`is_hermitian()` answers `True` unconditionally): for real `t`, `u` – the constructor only
+accepts floats – and a symmetric 0/1 zero-diagonal adjacency, `H† = H` in every representation of the CAR. Spinless: -/
+theorem C15_hubbard_hermitian_spinless (lat : LatIn) (t u : K) (ht : star t = t) (hu : star u = u) (C : CAR R lat.nsites)
+    (h01 : ∀ i j, i < lat.nsites → j < lat.nsites → lat.adj i j = 0 ∨ lat.adj i j = 1)
+    (hsym : ∀ i j, i < lat.nsites → j < lat.nsites → lat.adj i j = lat.adj j i)
+    (hdiag : ∀ i, i < lat.nsites → lat.adj i i = 0) :
+    (Hubbard.mk lat t u false).isHermitian = true ∧
+    star (Hubbard.den ⟨lat, t, u, false⟩ C) = Hubbard.den ⟨lat, t, u, false⟩ C := by
+  refine ⟨rfl, ?_⟩
+  rw [C15_hubbard_def_op_spinless lat t u C h01 hsym hdiag]
+  apply C.hubbard_form_star _ _ t u ht hu
+  intro p hp
+  have := (mem_edgeSet _ _ p.1 p.2).mp hp
+  exact ⟨by omega, this.2.1, by omega⟩
+
+/-- spinful: -/
+theorem C15_hubbard_hermitian_spinful (h : ℕ) (adj : ℕ → ℕ → ℤ) (layers : Option ℕ) (t u : K)
+    (ht : star t = t) (hu : star u = u) (C : CAR R (h + h))
+    (h01 : ∀ i j, i < h → j < h → adj i j = 0 ∨ adj i j = 1)
+    (hsym : ∀ i j, i < h → j < h → adj i j = adj j i) (hdiag : ∀ i, i < h → adj i i = 0) :
+    star (Hubbard.den ⟨⟨h + h, adj, layers⟩, t, u, true⟩ C) = Hubbard.den ⟨⟨h + h, adj, layers⟩, t, u, true⟩ C := by
+  rw [C15_hubbard_def_op_spinful h adj layers t u C h01 hsym hdiag]
+  rw [star_add, star_smul, star_smul, star_neg, ht, hu, star_sum, star_sum]
+  congr 2
+  · apply Finset.sum_congr rfl
+    intro s _
+    rw [star_sum]
+    apply Finset.sum_congr rfl
+    intro p _
+    simp only [star_add, star_mul, C.star_a, C.star_ad]
+    exact add_comm _ _
+  · apply Finset.sum_congr rfl
+    intro i hi
+    have := Finset.mem_range.mp hi
+    rw [star_mul, C.star_n, C.star_n, C.n_comm _ _ (by omega) (by omega) (by omega)]
+
+/-- Hermiticity at the coefficient level: the hopping tensor is Hermitian, and the adjoint index map
+`v ↦ conj v[l, k, j, i]` of `FieldOperatorTerm.adjoint` sends the interaction tensor to itself with the two density
+factors exchanged (`v[k, l, i, j]`), which denotes the same operator because `n_i n_j = n_j n_i` for `i ≠ j` -/
+theorem C15_hubbard_hermitian_coeff (L : ℕ) (adj : ℕ → ℕ → ℤ) (t u : K) (spin : Bool) (ht : star t = t) (hu : star u = u)
+    (hsym : ∀ i j, adj i j = adj j i) :
+    (∀ i j, star (hubbardKin L adj t spin j i) = hubbardKin L adj t spin i j) ∧
+    (∀ i j k l, star (hubbardInt L adj u spin l k j i) = hubbardInt L adj u spin k l i j) := by
+  constructor
+  · intro i j
+    cases spin
+    · simp [hubbardKin, ht, hsym j i]
+    · simp only [hubbardKin, if_true, kronI2, star_mul', star_neg, ht, star_intCast, hsym (j % (L / 2)) (i % (L / 2)),
+        eq_comm (a := j / (L / 2))]
+  · intro i j k l
+    cases spin
+    · simp only [hubbardInt, Bool.false_eq_true, if_false]
+      have : (k = l ∧ i = j ∧ l < j ∧ j < L ∧ adj l j ≠ 0) ↔ (l = k ∧ j = i ∧ k < i ∧ i < L ∧ adj k i ≠ 0) := by
+        constructor
+        · rintro ⟨rfl, rfl, h⟩; exact ⟨rfl, rfl, h⟩
+        · rintro ⟨rfl, rfl, h⟩; exact ⟨rfl, rfl, h⟩
+      by_cases hc : (k = l ∧ i = j ∧ l < j ∧ j < L ∧ adj l j ≠ 0)
+      · rw [if_pos hc, if_pos (this.mp hc), hu]
+      · rw [if_neg hc, if_neg (fun h => hc (this.mpr h)), star_zero]
+    · simp only [hubbardInt, if_true]
+      have : (l < L / 2 ∧ k = l ∧ j = l + L / 2 ∧ i = l + L / 2) ↔ (k < L / 2 ∧ l = k ∧ i = k + L / 2 ∧ j = k + L / 2) := by
+        constructor
+        · rintro ⟨h, rfl, rfl, rfl⟩; exact ⟨h, rfl, rfl, rfl⟩
+        · rintro ⟨h, rfl, rfl, rfl⟩; exact ⟨h, rfl, rfl, rfl⟩
+      by_cases hc : (l < L / 2 ∧ k = l ∧ j = l + L / 2 ∧ i = l + L / 2)
+      · rw [if_pos hc, if_pos (this.mp hc), hu]
+      · rw [if_neg hc, if_neg (fun h => hc (this.mpr h)), star_zero]
+
+end car
+
+/-! ### molecular Hamiltonian -/
+
+/-- what the constructor accepts: shapes `(n, n)` / `(n, n, n, n)` with `n = len(tkin)`, a fermionic field on `n`
+sites, and – exactly when the flag demands it – a real constant, `allclose(tkin, tkin†)`,
+`allclose(vint, conj(vint).transpose(2, 3, 0, 1))` (HERMITIAN) resp. `allclose(vint, vint.transpose(1, 0, 3, 2))`
+(VARCHANGE); the object then stores the arguments unchanged -/
+theorem C15_molecular_accepts_iff (atol rtol : ℚ) (m : MolArgs) (H : Molecular) :
+    mkMolecular atol rtol m = .ok H ↔
+      MolValid atol rtol m H.norbs ∧ H = ⟨H.norbs, m.c.val, m.t, m.v, m.symH, m.symV⟩ :=
+  ⟨mkMolecular_ok atol rtol m H, fun ⟨hv, e⟩ => by rw [e]; exact mkMolecular_complete atol rtol m _ hv⟩
+
+theorem C15_molecular_valid_def (atol rtol : ℚ) (m : MolArgs) (n : ℕ) :
+    MolValid atol rtol m n ↔
+      (m.tshape = [n, n] ∧ m.vshape = [n, n, n, n] ∧ m.ptype = .fermion ∧ m.nsites = n ∧
+      (m.symH = true → m.c.kind.isIntOrFloat = true ∧
+        (∀ i j, i < n → j < n → closeTol atol rtol (m.t i j) (m.t j i).conj = true) ∧
+        (∀ i j k l, i < n → j < n → k < n → l < n → closeTol atol rtol (m.v i j k l) (m.v k l i j).conj = true)) ∧
+      (m.symV = true → ∀ i j k l, i < n → j < n → k < n → l < n → closeTol atol rtol (m.v i j k l) (m.v j i l k) = true)) :=
+  Iff.rfl
+
+/-- the tolerance test of the model is NumPy's `isclose` formula over the reals; with zero tolerances it is equality -/
+theorem C15_closeTol_spec (atol rtol : ℚ) (ha : 0 ≤ atol) (hr : 0 ≤ rtol) (a b : GQ) :
+    (closeTol atol rtol a b = true ↔ ‖a.toC - b.toC‖ ≤ (atol : ℝ) + (rtol : ℝ) * ‖b.toC‖) ∧
+    (closeTol 0 0 a b = true ↔ a = b) :=
+  ⟨closeTol_iff atol rtol ha hr a b, closeTol_zero a b⟩
+
+/-- rejections: wrong shapes, a non-fermionic field or a wrong site count are refused with `ValueError`
+(a 0-dimensional `tkin` with `TypeError` from `len`) whatever the flags are -/
+theorem C15_molecular_rejects (atol rtol : ℚ) (m : MolArgs) (n : ℕ) (rest : List ℕ) (hts : m.tshape = n :: rest)
+    (hbad : m.tshape ≠ [n, n] ∨ m.vshape ≠ [n, n, n, n] ∨ m.ptype ≠ .fermion ∨ m.nsites ≠ n) :
+    mkMolecular atol rtol m = .error .valueError := by
+  unfold mkMolecular
+  rw [hts]
+  simp only
+  rw [hts] at hbad
+  by_cases h1 : n :: rest ≠ [n, n]
+  · rw [if_pos h1]
+  · rw [if_neg h1]
+    by_cases h2 : m.vshape ≠ [n, n, n, n]
+    · rw [if_pos h2]
+    · rw [if_neg h2]
+      by_cases h3 : m.ptype ≠ .fermion
+      · rw [if_pos h3]
+      · rw [if_neg h3]
+        by_cases h4 : m.nsites ≠ n
+        · rw [if_pos h4]
+        · rcases hbad with h | h | h | h <;> contradiction
+
+/-- `is_hermitian()` answers `HERMITIAN in symm` -/
+theorem C15_molecular_flag (atol rtol : ℚ) (m : MolArgs) (H : Molecular) (h : mkMolecular atol rtol m = .ok H) :
+    H.isHermitian = m.symH := by
+  rw [((C15_molecular_accepts_iff atol rtol m H).mp h).2]; rfl
+
+/-- coefficient tensors of `as_field_operator`: the constant, `tkin`, and `0.5 * vint.transpose(0, 1, 3, 2)`;
+operator patterns `[]`, `a† a`, `a† a† a a` -/
+theorem C15_molecular_def_coeff (H : Molecular) (i j k l : ℕ) :
+    H.coeffC = H.c ∧ H.coeffT i j = H.t i j ∧ H.coeffV i j k l = GQ.half * H.v i j l k ∧ GQ.half.toC = 1 / 2 ∧
+    molPatternC = [] ∧ molPatternT = [.create, .annihil] ∧ molPatternV = [.create, .create, .annihil, .annihil] :=
+  ⟨rfl, rfl, rfl, GQ.toC_half, rfl, rfl, rfl⟩
+
+section carmol
+variable {R : Type} [Ring R] [StarRing R] [Algebra ℂ R]
+
+/-- the index swap and the factor ½ give the physicists' convention of the docstring:
+`H = c + Σ t_ij a†_i a_j + ½ Σ v_ijkl a†_i a†_j a_l a_k` (note the order of `k` and `l`) -/
+theorem C15_molecular_def (H : Molecular) (C : CAR R H.norbs) :
+    H.den C = H.c.toC • (1 : R) +
+      (∑ i ∈ Finset.range H.norbs, ∑ j ∈ Finset.range H.norbs, (H.t i j).toC • (C.ad i * C.a j)) +
+      (1 / 2 : ℂ) • ∑ i ∈ Finset.range H.norbs, ∑ j ∈ Finset.range H.norbs, ∑ k ∈ Finset.range H.norbs,
+        ∑ l ∈ Finset.range H.norbs, (H.v i j k l).toC • (C.ad i * C.ad j * C.a l * C.a k) := by
+  unfold Molecular.den
+  have hV : (fun i j k l => (H.coeffV i j k l).toC) = molV (1 / 2 : ℂ) (fun i j k l => (H.v i j k l).toC) := by
+    funext i j k l
+    simp only [Molecular.coeffV, molV, GQ.toC_mul, GQ.toC_half]
+  rw [hV, C.mol_int_form, molPatternC, molPatternT, C.termDen_nil, C.termDen_two]
+  rfl
+
+/-- the molecular Hamiltonian conserves the particle number as well -/
+theorem C15_molecular_conserves_N (H : Molecular) (C : CAR R H.norbs) : C.N * H.den C = H.den C * C.N := by
+  unfold Molecular.den
+  rw [mul_add, mul_add, add_mul, add_mul, C.N_commutes_balanced _ C15_hubbard_number_balanced.2.2.2.2.1,
+    C.N_commutes_balanced _ C15_hubbard_number_balanced.2.2.2.2.2.1,
+    C.N_commutes_balanced _ C15_hubbard_number_balanced.2.2.2.2.2.2]
+
+variable [StarModule ℂ R]
+
+/-- Hermitian under exactly the validated symmetries: a constructor call with the HERMITIAN flag that succeeds
+(here with zero tolerances, i.e. exactly symmetric tensors: real `c`, `t = t†`, `v_ijkl = conj v_klij`) yields
+`is_hermitian() = True` and `H† = H` in every representation of the CAR; the VARCHANGE symmetry is not needed -/
+theorem C15_molecular_hermitian (m : MolArgs) (H : Molecular) (h : mkMolecular 0 0 m = .ok H) (hs : m.symH = true)
+    (hc : m.c.val.im = 0) (C : CAR R H.norbs) :
+    H.isHermitian = true ∧ star (H.den C) = H.den C := by
+  obtain ⟨hv, e⟩ := (C15_molecular_accepts_iff 0 0 m H).mp h
+  obtain ⟨_, _, _, _, hH, _⟩ := hv
+  obtain ⟨_, ht, hvv⟩ := hH hs
+  have eT : ∀ i j, i < H.norbs → j < H.norbs → star (H.t j i).toC = (H.t i j).toC := by
+    intro i j hi hj
+    have := (closeTol_zero _ _).mp (ht i j hi hj)
+    rw [e]; simp only
+    rw [this, GQ.toC_conj]
+  have eV : ∀ i j k l, i < H.norbs → j < H.norbs → k < H.norbs → l < H.norbs →
+      star (H.v k l i j).toC = (H.v i j k l).toC := by
+    intro i j k l hi hj hk hl
+    have := (closeTol_zero _ _).mp (hvv i j k l hi hj hk hl)
+    rw [e]; simp only
+    rw [this, GQ.toC_conj]
+  have eC : star H.c.toC = H.c.toC := by
+    rw [e]; exact GQ.toC_real_star _ hc
+  refine ⟨by rw [e]; exact hs, ?_⟩
+  rw [C15_molecular_def, star_add, star_add, star_smul, star_one, eC, star_smul, C.star_int_form]
+  have h2 : star (∑ i ∈ Finset.range H.norbs, ∑ j ∈ Finset.range H.norbs, (H.t i j).toC • (C.ad i * C.a j)) =
+      ∑ i ∈ Finset.range H.norbs, ∑ j ∈ Finset.range H.norbs, (H.t i j).toC • (C.ad i * C.a j) := by
+    have := C.star_hop_term (K := ℂ) (fun i j => (H.t i j).toC)
+    rw [molPatternT, C.termDen_two, C.termDen_two] at this
+    rw [show (∑ i ∈ Finset.range H.norbs, ∑ j ∈ Finset.range H.norbs, (H.t i j).toC • (C.ad i * C.a j)) =
+      ∑ i ∈ Finset.range H.norbs, ∑ j ∈ Finset.range H.norbs, (H.t i j).toC • (C.op .create i * C.op .annihil j) from rfl,
+      this]
+    apply Finset.sum_congr rfl; intro i hi
+    apply Finset.sum_congr rfl; intro j hj
+    rw [eT i j (Finset.mem_range.mp hi) (Finset.mem_range.mp hj)]
+  rw [h2]
+  congr 2
+  · simp
+  · apply Finset.sum_congr rfl; intro i hi
+    apply Finset.sum_congr rfl; intro j hj
+    apply Finset.sum_congr rfl; intro k hk
+    apply Finset.sum_congr rfl; intro l hl
+    rw [eV i j k l (Finset.mem_range.mp hi) (Finset.mem_range.mp hj) (Finset.mem_range.mp hk) (Finset.mem_range.mp hl)]
+
+end carmol
+
+/-- with NumPy's tolerances the validated symmetry is approximate: a successful HERMITIAN construction bounds every
+coefficient's deviation from the Hermitian partner by `atol + rtol·|partner|` (so `H − H†` is small, not zero) -/
+theorem C15_molecular_hermitian_tol (atol rtol : ℚ) (ha : 0 ≤ atol) (hr : 0 ≤ rtol) (m : MolArgs) (H : Molecular)
+    (h : mkMolecular atol rtol m = .ok H) (hs : m.symH = true) :
+    (∀ i j, i < H.norbs → j < H.norbs →
+      ‖(H.t i j).toC - star (H.t j i).toC‖ ≤ (atol : ℝ) + (rtol : ℝ) * ‖(H.t j i).toC‖) ∧
+    (∀ i j k l, i < H.norbs → j < H.norbs → k < H.norbs → l < H.norbs →
+      ‖(H.v i j k l).toC - star (H.v k l i j).toC‖ ≤ (atol : ℝ) + (rtol : ℝ) * ‖(H.v k l i j).toC‖) := by
+  obtain ⟨hv, e⟩ := (C15_molecular_accepts_iff atol rtol m H).mp h
+  obtain ⟨_, _, _, _, hH, _⟩ := hv
+  obtain ⟨_, ht, hvv⟩ := hH hs
+  constructor
+  · intro i j hi hj
+    have := (closeTol_iff atol rtol ha hr _ _).mp (ht i j hi hj)
+    rw [GQ.toC_conj, Complex.star_def, Complex.norm_conj] at this
+    rw [e, Complex.star_def]; exact this
+  · intro i j k l hi hj hk hl
+    have := (closeTol_iff atol rtol ha hr _ _).mp (hvv i j k l hi hj hk hl)
+    rw [GQ.toC_conj, Complex.star_def, Complex.norm_conj] at this
+    rw [e, Complex.star_def]; exact this
+
+/-! ### non-vacuity -/
+
+/-- 3-site ring, convention ZZ: three edges once, then the fields (order of insertion of the code) -/
+example : isingOp 3 (fun i j => if i = j then 0 else 1) (1 : ℤ) 2 3 .zz =
+    [(sitePS 3 .Z [0, 1], 1), (sitePS 3 .Z [0, 2], 1), (sitePS 3 .Z [0], 2), (sitePS 3 .X [0], 3),
+     (sitePS 3 .Z [1, 2], 1), (sitePS 3 .Z [1], 2), (sitePS 3 .X [1], 3),
+     (sitePS 3 .Z [2], 2), (sitePS 3 .X [2], 3)] := by decide
+example : sitePS 3 .Y [0, 2] = ⟨[true, false, true], [true, false, true], 0⟩ := by decide
+example : edgeSet 3 (fun i j => if i = j then 0 else 1) = {(0, 1), (0, 2), (1, 2)} := by decide
+example : (heisOp 2 (fun i j => if i = j then 0 else 1) (fun _ => (1 : ℤ)) (fun _ => 0)).length = 9 := by decide
+
+example : (LatIn.ofLat (.layered (.integer [2] [false]) 2)).adj 0 1 = 1 ∧
+    (LatIn.ofLat (.layered (.integer [2] [false]) 2)).adj 0 2 = 1 ∧
+    (LatIn.ofLat (.layered (.integer [2] [false]) 2)).adj 0 3 = 0 := by decide
+example : Lat.WF (.layered (.integer [2, 3] [true, false]) 2) := trivial
+
+example : hubbardKin 4 (LatIn.ofLat (.layered (.integer [2] [false]) 2)).adj (1 : ℤ) true 2 3 = -1 ∧
+    hubbardKin 4 (LatIn.ofLat (.layered (.integer [2] [false]) 2)).adj (1 : ℤ) true 0 2 = 0 ∧
+    hubbardInt 4 (LatIn.ofLat (.layered (.integer [2] [false]) 2)).adj (5 : ℤ) true 1 1 3 3 = 5 ∧
+    hubbardInt 4 (LatIn.ofLat (.layered (.integer [2] [false]) 2)).adj (5 : ℤ) true 3 3 1 1 = 0 := by decide
+
+/-- the hypotheses of the operator-level theorems are satisfiable: a two-mode Jordan-Wigner representation -/
+def exHubbard : Hubbard ℂ := ⟨⟨2, fun i j => if i = j then 0 else 1, none⟩, 1, 2, false⟩
+example : jwCAR2.N * exHubbard.den jwCAR2 = exHubbard.den jwCAR2 * jwCAR2.N :=
+  C15_hubbard_conserves_N (R := Matrix (Fin 4) (Fin 4) ℂ) (K := ℂ) exHubbard jwCAR2
+
+example : mkHubbard (α := ℚ) ⟨.fermion, ⟨4, fun _ _ => 0, some 2⟩⟩ ⟨.float, 1⟩ ⟨.npfloat64, 2⟩ true =
+    .ok ⟨⟨4, fun _ _ => 0, some 2⟩, 1, 2, true⟩ := rfl
+example : (mkHubbard (α := ℚ) ⟨.fermion, ⟨4, fun _ _ => 0, some 3⟩⟩ ⟨.float, 1⟩ ⟨.float, 2⟩ true).toOption = none := rfl
+example : (mkHubbard (α := ℚ) ⟨.fermion, ⟨4, fun _ _ => 0, none⟩⟩ ⟨.int, 1⟩ ⟨.float, 2⟩ false).toOption = none := rfl
+
+def exMol (t01 : GQ) (symH : Bool) : MolArgs :=
+  { ptype := .fermion, nsites := 2, tshape := [2, 2], vshape := [2, 2, 2, 2], c := ⟨.float, ⟨3 / 2, 0⟩⟩,
+    t := fun i j => if i = 0 ∧ j = 1 then t01 else if i = 1 ∧ j = 0 then ⟨0, 1⟩ else 0,
+    v := fun _ _ _ _ => 0, symH := symH, symV := true }
+
+/-- Hermitian `tkin` (`t01 = conj t10 = -i`) is accepted with the flag; `t01 = i` only without it -/
+example : (mkMolecular 0 0 (exMol ⟨0, -1⟩ true)).toOption.isSome = true := by decide +kernel
+example : (mkMolecular 0 0 (exMol ⟨0, 1⟩ true)).toOption.isSome = false := by decide +kernel
+example : (mkMolecular 0 0 (exMol ⟨0, 1⟩ false)).toOption.isSome = true := by decide +kernel
+example : closeTol (1 / 100000000) (1 / 100000) ⟨1, 0⟩ ⟨1 + 1 / 1000000000000, 0⟩ = true ∧
+    closeTol (1 / 100000000) (1 / 100000) ⟨1, 0⟩ ⟨1 + 1 / 1000, 0⟩ = false := by decide +kernel
 
 end Qib.Ham
